@@ -362,6 +362,9 @@ func Run(t *testing.T, codecs []*Codec) {
 			out.Emit(observe(c, kind, in))
 			parent := hex.EncodeToString(in)
 			for k := 0; k < len(in); k++ {
+				if k >= 64 && k < len(in)-8 { // long fixed inputs: the first 64 and the last 8 cuts
+					continue
+				}
 				cs := observe(c, "ctrunc", in[:k])
 				cs.Parent = parent
 				out.Emit(cs)
